@@ -10,7 +10,7 @@ VERIFIES = (KH_VERIFY, ROOT_VERIFY, DELEG_VERIFY)
 
 
 def run(chk, prog):
-    chk.rules_live = ["R1", "R2", "R3", "R4", "R5", "R6", "R7", "R8", "R9", "R10", "R11", "R12", "R13", "R14", "R15"]
+    chk.rules_live = ["R1", "R2", "R3", "R4", "R5", "R6", "R7", "R8", "R9", "R10", "R11", "R12", "R13", "R14", "R15", "R16", "R17"]
     chk.explanation = (
         "Structural writer/reader rules over the editor: SignedRole is constructed only where its "
         "digest and length are computed from the very buffer that is written; snapshot/timestamp "
@@ -38,6 +38,8 @@ def run(chk, prog):
     c01.signer_verifier_agreement(chk, prog, "R13")
     r14_pending_edits_survive_failure(chk, prog)
     r15_existing_destination_verified(chk, prog)
+    r16_every_authorised_key_signs(chk, prog)
+    r17_add_key_attaches_every_key(chk, prog)
 
 
 def r1_signed_role(chk, prog):
@@ -666,3 +668,68 @@ def r15_existing_destination_verified(chk, prog):
                     "an existing destination is accepted as the published target (TargetPath::%s) on a path with neither "
                     "consistent snapshots nor a successful digest check of its content: metadata and served file can "
                     "disagree" % variant, site, path=ctx.describe_path(p))
+
+
+def r16_every_authorised_key_signs(chk, prog):
+    """SignedRole::new attaches a signature by every supplied key that the key holder lists for the role:
+    the threshold it sees may be a placeholder (a new delegated role is signed under a temporary key
+    holder with threshold 1 and gets its real threshold afterwards), so stopping early under-signs"""
+    NEW = SR + "::<T>::new"
+    ctx = async_body(prog, NEW)
+    if ctx is None:
+        chk.anchor_missing("R16", NEW)
+        return
+    chk.analysed_body(ctx.body)
+    pushes = []
+    for bb, t in ctx.calls("alloc::vec::Vec::push"):
+        recv = ctx.origins.of_operand(t.args[0])
+        via_ref = False
+        if t.args[0].place is not None:
+            for (kind, dbb, idx, obj) in ctx.origins.defs.get(t.args[0].place.local, []):
+                if kind == "stmt" and obj.rv.k == "ref" and obj.rv.place.fields()[-1:] == ("signatures",):
+                    via_ref = True
+        if via_ref or (recv and any(o.fields[-1:] == ("signatures",) for o in recv)):
+            pushes.append((bb, t))
+    if not chk.require(len(pushes) >= 1, "R16", ctx.fn, "signature-push", "unrecognised-idiom: no role.signatures.push(..)"):
+        return
+    for bb, t in pushes:
+        comp = next((c for c in ctx.cfg.sccs() if len(c) > 1 and bb in c), None)
+        chk.require(comp is not None, "R16", ctx.fn, "signs-in-a-loop", "signatures are not added in a loop over the keys", ctx.site(bb))
+        fc = foreign_controls(ctx, bb, lambda o: False)
+        chk.require(not fc, "R16", ctx.fn, "every-authorised-key-signs",
+                    "a signature by an authorised, supplied key is added only under a condition (%s): the role can end "
+                    "up with fewer signatures than the threshold its delegating role finally records"
+                    % sorted(set(repr(o) for _, os_ in fc for o in os_))[:3], ctx.site(fc[0][0]) if fc else None)
+
+
+def r17_add_key_attaches_every_key(chk, prog):
+    """TargetsEditor::add_key(keys, Some(role)) attaches every given key id to the role, whether or not
+    the delegating role already knew the key"""
+    AK = "tough::editor::targets::TargetsEditor::add_key"
+    ctx = ctx_of(prog, AK)
+    if ctx is None:
+        chk.anchor_missing("R17", AK)
+        return
+    chk.analysed_body(ctx.body)
+    # the list that is later extended into delegated_role.keyids
+    ext = []
+    for bb, t in ctx.calls("core::iter::traits::collect::Extend::extend", "alloc::vec::Vec::extend_from_slice", "alloc::vec::Vec::push"):
+        recv = ctx.origins.of_operand(t.args[0])
+        if recv and any(o.fields[-1:] == ("keyids",) for o in recv):
+            ext.append((bb, t))
+    chk.require(len(ext) >= 2, "R17", ctx.fn, "attaches-to-role", "add_key does not extend the keyids of the named role "
+                "(existing and newly created roles)")
+    collected = []
+    for bb, t in ctx.calls("alloc::vec::Vec::push"):
+        recv = ctx.origins.of_operand(t.args[0])
+        if recv and all(o.kind == "call" and is_call(o, "alloc::vec::Vec::new", "alloc::vec::Vec::with_capacity") for o in recv):
+            collected.append((bb, t))
+    if not chk.require(len(collected) >= 1, "R17", ctx.fn, "collects-key-ids",
+                       "unrecognised-idiom: no list of the given key ids is built"):
+        return
+    for bb, t in collected:
+        fc = foreign_controls(ctx, bb, lambda o: False)
+        chk.require(not fc, "R17", ctx.fn, "every-given-key-id-collected",
+                    "a given key id is collected for the role only under a condition (%s): a key the delegating role "
+                    "already knows would silently not be attached" % sorted(set(repr(o) for _, os_ in fc for o in os_))[:3],
+                    ctx.site(fc[0][0]) if fc else None)
